@@ -16,7 +16,7 @@ struct C13 : Check {
 	}
 	std::vector<std::string> assumptions() const override {
 		return {"ignorecase keeps its default (on)", "patterns are generated from the RefRegex grammar; lines stay <= 80 characters (engine depth limit out of reach)",
-			"search offsets (/re/+1) are not part of the statement and not generated"};
+			"where a search with a line offset (/re/+1) lands is not part of the statement: such searches are generated but followed, not judged; what is judged is that the offset does not leak into later searches without one"};
 	}
 	std::vector<std::string> excluded() const override {
 		return {"n / N / an empty pattern before any pattern was given (neatvi searches for the empty string then)",
@@ -36,7 +36,7 @@ struct C13 : Check {
 		int nsteps = (int) r.range(3, tier ? 30 : 20);
 		for (int i = 0; i < nsteps; i++) {
 			Step s; s.meta = Json::obj();
-			int k = r.weighted({20, 22, 14, 16, 10, 6, 6});
+			int k = r.weighted({20, 22, 14, 16, 10, 6, 6, 3});
 			std::string cnt = r.chance(1, 4) ? std::to_string(r.range(2, 4)) : "";
 			if (k == 0) {		// place the cursor
 				s.keys = std::to_string(r.range(1, nl)) + "G0";
@@ -54,6 +54,15 @@ struct C13 : Check {
 			} else if (k == 3) { s.keys = cnt + "n"; s.meta.set("k", "next").set("rev", false).set("cnt", cnt.empty() ? 1 : atol(cnt.c_str())); }
 			else if (k == 4) { s.keys = cnt + "N"; s.meta.set("k", "next").set("rev", true).set("cnt", cnt.empty() ? 1 : atol(cnt.c_str())); }
 			else if (k == 5) { s.keys = std::string(1, r.chance(1, 2) ? '/' : '?') + "\n"; s.meta.set("k", "search").set("dir", s.keys[0] == '/' ? 1 : -1).set("pat", "").set("cnt", 1); }
+			else if (k == 7) {
+				// a search with a line offset: where it lands is not part of the statement (followed, not judged),
+				// but the offset must not leak into a later search that has none (a new pattern, ^A)
+				bool fwd = r.chance(1, 2);
+				char d = fwd ? '/' : '?';
+				std::string pat = WORDS[r.below(12)];
+				s.keys = std::string(1, d) + pat + std::string(1, d) + (r.chance(1, 2) ? "+1" : "-1") + "\n";
+				s.meta.set("k", "offsearch").set("dir", fwd ? 1 : -1).set("pat", pat);
+			}
 			else { s.keys = cnt + "\x01"; s.meta.set("k", "word").set("cnt", cnt.empty() ? 1 : atol(cnt.c_str())); }
 			p.steps.push_back(s);
 		}
@@ -62,8 +71,9 @@ struct C13 : Check {
 
 	// ---- reference
 	std::string last_pat; int last_dir = 0;
+	bool offset_active = false;	// the last search had a line offset: n and N repeat it
 
-	void begin(RunCtx &) override { last_pat.clear(); last_dir = 0; }
+	void begin(RunCtx &) override { last_pat.clear(); last_dir = 0; offset_active = false; }
 
 	// one search step from (row, off); returns false when nothing is found; skip is set when the
 	// expectation falls on an excluded corner (match at the very end of a line)
@@ -110,6 +120,17 @@ struct C13 : Check {
 		int row = c.row(), off = c.off();
 		std::string ctx = "step " + std::to_string(after) + " " + vis(s.keys, 40) + " from line " + std::to_string(prow + 1) + " char " + std::to_string(poff);
 		if (k == "place" || k.empty()) { prow = row; poff = off; return; }
+		if (k == "offsearch") {
+			last_pat = s.meta.str("pat"); last_dir = (int) s.meta.num("dir");
+			offset_active = true;
+			c.count("offset_searches_followed");
+			prow = row; poff = off;
+			return;
+		}
+		if (k == "next" && offset_active) { c.count("offset_searches_followed"); prow = row; poff = off; return; }	// n / N repeat the offset
+		if (k == "search" && !s.meta.str("pat").empty()) offset_active = false;
+		if (k == "search" && s.meta.str("pat").empty() && offset_active) { c.count("offset_searches_followed"); prow = row; poff = off; return; }
+		if (k == "word") offset_active = false;
 		std::vector<std::string> text = c.text();
 		std::vector<refre::U32> lines;
 		for (auto &l : text) lines.push_back(refre::decode(l));
